@@ -25,6 +25,9 @@ inductive ValueKind where
   | transientEntries
   /-- `if k in C: … C[k]` on such a container: another thread can remove `k` in between -/
   | checkThenGet
+  /-- a process-wide mode flag (class-level configuration such as `Structure._fail_fast`, `TypedPyDefaults.*`) that an
+      operation flips for its own duration: every other thread runs in the wrong mode meanwhile -/
+  | modeToggle
   deriving DecidableEq, Repr
 
 structure SharedWrite where
@@ -48,6 +51,7 @@ def SharedWrite.safe (r : SharedWrite) : Bool :=
   | .publishedIncomplete => false
   | .transientEntries => false
   | .checkThenGet => false
+  | .modeToggle => false
 
 /-- known-finding key of a site -/
 def SharedWrite.key (r : SharedWrite) : String := "shared-" ++ r.attr ++ ":" ++ r.file ++ ":" ++ r.func
